@@ -107,6 +107,13 @@ def dump_path(unit_path, extra_flags=(), filt='phosg'):
     return out
 
 
+def try_compile(unit_path, extra_flags=()):
+    """(ok, diagnostics) of a front-end-only compile of a witness unit."""
+    cmd = ['clang++'] + [f for f in base_flags() if f != '-Wno-everything'] + list(extra_flags) + ['-fsyntax-only', '-ferror-limit=0', '-Wno-everything', unit_path]
+    r = subprocess.run(cmd, stdout=subprocess.PIPE, stderr=subprocess.PIPE)
+    return r.returncode == 0, r.stderr.decode('utf8', 'replace')
+
+
 def prefetch(unit_paths, jobs=16):
     """Produce the dumps of several units in parallel (cold-cache speed-up)."""
     from concurrent.futures import ThreadPoolExecutor
